@@ -49,4 +49,14 @@ impl S4 {
 
     #[scpi(cmd = "MEASure:VOLTage?")]
     fn meas(&mut self) -> Result<u32, Error> { Ok(7) }
+
+    // command and query of one node declared with DIFFERENT optional nodes: the spellings of the two differ
+    #[scpi(cmd = "[SOURce]:POWer")]
+    fn power(&mut self, v: u32) -> Result<(), Error> { self.level = v; Ok(()) }
+    #[scpi(cmd = "SOURce:POWer?")]
+    fn power_q(&mut self) -> Result<u32, Error> { Ok(7) }
+    #[scpi(cmd = "TRIGger:[SEQuence]:DELay")]
+    fn delay(&mut self, v: u32) -> Result<(), Error> { self.level = v; Ok(()) }
+    #[scpi(cmd = "TRIGger:DELay?")]
+    fn delay_q(&mut self) -> Result<u32, Error> { Ok(8) }
 }
